@@ -176,9 +176,37 @@ Fixpoint links_ok (this_is_ws : bool) (n : node) : bool :=
   | _ => true
   end.
 
+Definition exists_at (root : node) (comps : list str) : bool :=
+  match phys root comps with
+  | Some ph => match get root ph with Some _ => true | None => false end
+  | None => false
+  end.
+
+(* the layout hypothesis of the property, read on the query path of a get_job query (decidable facts
+   about the INPUT, validated per query): every component is id-like or contains no 32-hex run; if
+   the path exists and i is its innermost id-like component then i is a child of <project>/workspace
+   (the component before i is 'workspace', the directory before that holds a configuration, the
+   workspace directory itself is not a project and resolves), and the job path /…/i is a directory
+   (so that /…/i/.. exists). *)
+Definition job_layout (root : node) (cwd : str) (comps : list str) : bool :=
+  forallb (fun c => negb (has_run c) || is_id c) comps
+  && (negb (exists_at root comps)
+      || match innermost_id (rev comps) with
+         | None => true
+         | Some (i, w :: rproj) =>
+             str_eqb w s_workspace && has_cfg root (rev rproj) && negb (has_cfg root (rev (w :: rproj)))
+             && match phys root (rev (w :: rproj)) with Some _ => true | None => false end
+             && os_exists root cwd (path_join (abs_of (rev (w :: rproj) ++ [i])) s_pardir)
+         | Some (_, []) => false
+         end).
+
 Definition pre_q (base : str) (tree : node) (q : query) : bool :=
   forallb (fun c => negb (has_run c)) (base_comps base)
-  && layout_ok false tree && links_ok false tree && cfgs_ok tree && regular (mkroot base tree) q.
+  && layout_ok false tree && links_ok false tree && cfgs_ok tree && regular (mkroot base tree) q
+  && match q_kind q with
+     | QJob => job_layout (mkroot base tree) (q_cwd q) (q_comps q)
+     | _ => true
+     end.
 
 Definition expected (root : node) (q : query) : option qres :=
   let comps := q_comps q in
